@@ -248,6 +248,17 @@ func sibling(r *gen.Rand, t string) string {
 	return t + gen.Pick(r, []string{"x", "ual", "s", "2", "-x"})
 }
 
+// subtagCuts returns the positions of the '-' separators of a language tag.
+func subtagCuts(t string) []int {
+	var cuts []int
+	for i := 1; i < len(t)-1; i++ {
+		if t[i] == '-' {
+			cuts = append(cuts, i)
+		}
+	}
+	return cuts
+}
+
 func extOf(mime string) string {
 	switch mime {
 	case "text/html":
@@ -304,7 +315,7 @@ var tokPools = [...][]string{
 	nil,
 	{"utf-8", "iso-8859-1", "utf-16", "us-ascii", "windows-1252"},
 	{"gzip", "br", "deflate", "compress", "identity", "zstd"},
-	{"en", "en-US", "en-GB", "fr", "de", "nl", "ru", "pt", "fr-CH"},
+	{"en", "en-US", "en-GB", "fr", "de", "nl", "ru", "pt", "fr-CH", "zh-Hant-TW", "zh-Hans-CN", "sr-Latn-RS", "de-CH-1996", "zh-Hant", "sr"},
 }
 
 func genWS(r *gen.Rand, hostile, afterComma, afterSemi bool) string {
@@ -500,6 +511,12 @@ func genOffers(r *gen.Rand, k int, h []rng, allowExt, allowEmpty bool) []offer {
 		if k != kMedia {
 			if src != nil && src.typ != "*" {
 				o.text = src.typ
+				if k == kLanguage && r.Chance(2, 5) {
+					// a shorter tag the range's subtags begin with: zh-Hant-TW -> zh-Hant or zh
+					if cuts := subtagCuts(o.text); len(cuts) > 0 {
+						o.text = o.text[:gen.Pick(r, cuts)]
+					}
+				}
 			} else {
 				o.text = gen.Pick(r, tokPools[k])
 			}
